@@ -236,6 +236,37 @@ type rvOutcome struct {
 
 // rendezvous parks A inside the backend, issues B, observes B, releases A.
 func rendezvous(c *ev.Ctx, w *concWorld, a cop, ta ctarget, b cop, tb ctarget, rel string) (out rvOutcome, ok bool) {
+	return rendezvousAfter(c, w, a, ta, b, tb, rel, "")
+}
+
+// movedTargets rewrites (ta, tb) for the history "A's entry was renamed into
+// the directory /u as newName after A's fid had been bound".
+func movedTargets(ta, tb ctarget, newName string) (ctarget, ctarget) {
+	np := "/u/" + newName
+	old := ta.path
+	nta := ta
+	nta.path = np
+	ntb := tb
+	switch {
+	case tb.path == old:
+		ntb.path = np
+	case strings.HasPrefix(tb.path, old+"/"):
+		ntb.path = np + tb.path[len(old):]
+	case tb.dir && tb.path == parentOf(old):
+		// B acts on the parent: the parent is /u now, the child has the new name
+		ntb = ctarget{"/u", true, false, newName}
+	case !tb.dir && parentOf(tb.path) == parentOf(old):
+		// a sibling: /u/v is the moved entry's sibling now
+		ntb = ctarget{"/u/v", false, false, ""}
+	}
+	return nta, ntb
+}
+
+// rendezvousAfter is rendezvous with a history behind A's fid: "" (none),
+// "moved" (A's fid - and B's, for the same-fid relation - was bound before its
+// entry was renamed into another directory; B's fid is bound afterwards, by
+// a walk along the new path), "moved-both" (both fids bound before the move).
+func rendezvousAfter(c *ev.Ctx, w *concWorld, a cop, ta ctarget, b cop, tb ctarget, rel, hist string) (out rvOutcome, ok bool) {
 	ca := w.conns[0]
 	cb := ca
 	if rel == "other-conn" {
@@ -244,10 +275,30 @@ func rendezvous(c *ev.Ctx, w *concWorld, a cop, ta ctarget, b cop, tb ctarget, r
 	fa, ok1 := ca.fidAt(ta.path, a.stateFor(ta), ta.dir)
 	var fb uint64
 	ok2 := true
-	if rel == "same-fid" {
-		fb = fa
-	} else {
-		fb, ok2 = cb.fidAt(tb.path, b.stateFor(tb), tb.dir)
+	bindB := func() {
+		if rel == "same-fid" {
+			fb = fa
+		} else {
+			fb, ok2 = cb.fidAt(tb.path, b.stateFor(tb), tb.dir)
+		}
+	}
+	if hist != "moved" {
+		bindB()
+	}
+	if hist != "" && ok1 && ok2 {
+		if ta.path == "/" {
+			return out, false
+		}
+		pf, okp := ca.fidAt(parentOf(ta.path), 'u', true)
+		newName := "mv-" + baseOf(ta.path)
+		if !okp || ca.s.renameat(pf, baseOf(ta.path), 801, newName).Errno() != 0 {
+			return out, false
+		}
+		ca.s.clunk(pf)
+		ta, tb = movedTargets(ta, tb, newName)
+	}
+	if hist == "moved" {
+		bindB()
 	}
 	if !ok1 || !ok2 {
 		return out, false
